@@ -16,7 +16,7 @@ IWS_CHOICES = [65535, 0, 1, 2, 3, 4, 5, 7, 8, 100, 1023, 1024, 1025, 4096, 16384
 
 
 class St:
-    __slots__ = ('sid', 'win', 'max', 'open', 'recv', 'acked', 'credited', 'manual', 'closed_how')
+    __slots__ = ('sid', 'win', 'max', 'open', 'recv', 'acked', 'credited', 'manual', 'closed_how', 'reserved')
 
     def __init__(self, sid, init):
         self.sid = sid
@@ -28,6 +28,7 @@ class St:
         self.credited = 0      # increments emitted
         self.manual = False
         self.closed_how = None
+        self.reserved = False  # promised to us, response headers not yet received (reserved (remote))
 
 
 class Model:
@@ -47,12 +48,13 @@ def run(data, prop, manual_ops, overrun_ops):
     """prop: 'C04' or 'C05'."""
     ch = Chooser(data)
     r = Result()
-    client = ch.chance(64)
+    client = ch.chance(100)
     s = Solo(client)
     s.start()
     m = Model()
     r.step('role', 'client' if client else 'server')
     next_sid = 1
+    next_push = 2
     zero_seen = False
     max_changed_outstanding = False
     overflow_attempt = False
@@ -136,9 +138,11 @@ def run(data, prop, manual_ops, overrun_ops):
     for stepno in range(nsteps):
         if r.violations:
             break
-        live = [st for st in m.streams.values() if st.open]
+        live = [st for st in m.streams.values() if st.open and not st.reserved]
         ops = [(3, 'open'), (10, 'data'), (8, 'ack'), (2, 'iws'), (2, 'iws-ack'),
                (1, 'peer-rst'), (1, 'local-rst'), (2, 'data-closed'), (1, 'end')]
+        if client:
+            ops += [(2, 'push'), (3, 'push-resp')]
         if manual_ops:
             ops += [(4, 'inc'), (2, 'inc-bad'), (2, 'ack-odd')]
         op = ch.weighted(ops)
@@ -161,6 +165,38 @@ def run(data, prop, manual_ops, overrun_ops):
             m.streams[sid] = St(sid, m.iws)
             r.step('open', sid, 'iws', m.iws)
             absorb(o)
+        elif op == 'push':
+            # a promised stream is reserved (remote): it has an advertised window from the start, and a
+            # local INITIAL_WINDOW_SIZE change applies to it like to every other stream (RFC 7540 s6.9.2)
+            parents = [st for st in live if st.sid % 2]
+            if not parents or sum(1 for st in m.streams.values() if st.reserved) >= 3:
+                continue
+            par = ch.pick(parents)
+            pid = next_push
+            next_push += 2
+            o = s.feed(wire.push_promise(par.sid, pid, s.hblock(REQ)))
+            r.step('push-promise', par.sid, pid, o.brief())
+            if not o.ok:
+                r.violate('%s:valid-push-rejected:%s' % (prop, o.exc_name), repr(o.exc))
+                break
+            st = St(pid, m.iws)
+            st.reserved = True
+            m.streams[pid] = st
+            absorb(o)
+            r.labels.add('pushed')
+        elif op == 'push-resp':
+            cands = [st for st in m.streams.values() if st.reserved and st.open]
+            if not cands:
+                continue
+            st = ch.pick(cands)
+            o = s.feed(wire.headers(st.sid, s.hblock(RESP)))
+            r.step('pushed-response', st.sid, o.brief())
+            if not o.ok:
+                r.violate('%s:valid-pushed-response-rejected:%s' % (prop, o.exc_name), repr(o.exc))
+                break
+            st.reserved = False
+            absorb(o)
+            r.labels.add('pushed-response')
         elif op in ('data', 'end'):
             if not live:
                 continue
@@ -355,12 +391,14 @@ def run(data, prop, manual_ops, overrun_ops):
                         max_changed_outstanding = True
                     st.win += delta
                     st.max += delta
+                    if st.reserved:
+                        r.labels.add('iws-ack-with-reserved-stream')
             m.iws = v
             absorb(o)
         elif op in ('peer-rst', 'local-rst'):
             if not live:
                 continue
-            st = ch.pick(live)
+            st = ch.pick(live + [x for x in m.streams.values() if x.reserved and x.open])
             if op == 'peer-rst':
                 o = s.feed(wire.rst_stream(st.sid, wire.CANCEL))
             else:
@@ -384,10 +422,16 @@ def run(data, prop, manual_ops, overrun_ops):
             if m.conn <= 0:
                 continue
             trigger_cleanup = ch.bool()
+            pad = ch.pick([None, None, 0, 7, 255])
+            if pad is not None and n + pad + 1 <= min(m.conn, 16384):
+                payload_len, n = n, n + pad + 1     # padding is flow-controlled too
+                r.labels.add('padded-data-on-closed')
+            else:
+                pad, payload_len = None, n
             if trigger_cleanup:
                 s.c.open_inbound_streams   # public property; moves closed streams out of the table
-            o = s.feed(wire.data(st.sid, b'y' * n))
-            r.step('data-on-closed', st.sid, st.closed_how, n, 'cleaned' if trigger_cleanup else 'held',
+            o = s.feed(wire.data(st.sid, b'y' * payload_len, pad=pad))
+            r.step('data-on-closed', st.sid, st.closed_how, n, 'pad', pad, 'cleaned' if trigger_cleanup else 'held',
                    o.brief(), [f.brief() for f in o.frames])
             if not o.ok:
                 if st.closed_how == 'end' and o.is_protocol_error() and o.code == wire.STREAM_CLOSED:
@@ -432,6 +476,46 @@ def run(data, prop, manual_ops, overrun_ops):
                     r.step('final-ack-closed', st.sid, out, [f.brief() for f in o.frames])
         if check_windows('final'):
             check_credit('final')
+        closed = [st for st in m.streams.values() if st.closed_how in ('peer-rst', 'local-rst')]
+        if closed and not r.violations and m.conn_max == 65535 and ch.chance(80):
+            # flood: a peer that has not yet seen the reset keeps sending DATA on the closed stream.  The
+            # library acknowledges those bytes itself, so - every byte being acknowledged - the connection
+            # window may never run dry, however the bytes are split between payload and padding.
+            st = ch.pick(closed)
+            plen = ch.pick([0, 0, 1, 100, 1000])
+            pad = ch.pick([255, 255, 100, 0, None])
+            fc = plen + (0 if pad is None else pad + 1)
+            if fc == 0:
+                plen = fc = 300
+            if ch.bool():
+                s.c.open_inbound_streams
+            sent = 0
+            frame = wire.data(st.sid, b'z' * plen, pad=pad)
+            for _ in range(65535 // fc + 40 if fc >= 128 else 0):
+                if m.conn < fc:
+                    break
+                o = s.feed(frame)
+                if not o.ok:
+                    r.violate('C05:data-on-closed-stream-broke-connection:%s:%s' % (st.closed_how, o.exc_name),
+                              repr(o.exc))
+                    break
+                m.conn -= fc
+                m.conn_recv += fc
+                m.conn_acked += fc
+                absorb(o)
+                sent += 1
+            if not r.violations and 0 < m.conn < fc and m.conn <= 256:
+                # the window can no longer hold one more such frame: fill it exactly
+                o = s.feed(wire.data(st.sid, b'', pad=m.conn - 1))
+                if o.ok:
+                    m.conn_recv += m.conn
+                    m.conn_acked += m.conn
+                    m.conn = 0
+                    absorb(o)
+            r.step('flood-on-closed', st.sid, 'payload', plen, 'pad', pad, 'frames', sent, 'window', m.conn)
+            r.labels.add('flood-on-closed')
+            if not r.violations and check_windows('flood'):
+                check_credit('flood')
     if s.out_problems:
         r.violate('%s:malformed-output' % prop, repr(s.out_problems))
     if prop == 'C05':
